@@ -189,14 +189,14 @@ def kindDec (kind : B) (version datasize : Nat) : R KindPart := fun d p => do
       let (lf, p) ← Descriptor.Block.dec tb d p
       let (ts, p) ← (if version > 3 then Codec.optItem readTs d p else .ok (none, p))
       let (fsz, p) ← readU 8 d p
-      let (dt, p) ← (if version > 2 then Codec.optItem (readUpTo datasize) d p else .ok (none, p))
+      let (dt, p) ← (if version > 2 then Codec.optItem (readSized datasize) d p else .ok (none, p))
       .ok ((⟨some lf, ts, some fsz, dt⟩ : KindPart), p)
     else if kind = GP.linkedAlias then do
       let (_, p) ← readSkip 8 d p
       .ok ((⟨none, none, none, none⟩ : KindPart), p)
     else .ok ((⟨none, none, none, none⟩ : KindPart), p) : Except Err (KindPart × Nat))
   if kind = GP.linkedData then
-    let (dt, p) ← readUpTo datasize d p
+    let (dt, p) ← readSized datasize d p
     if dt.length = datasize then .ok ({ k with data := some dt }, p) else .error .assertionError
   else .ok (k, p)
 
@@ -220,7 +220,7 @@ def dec : R LinkedLayer := fun d p => do
       let (openFile, p) ← (if flag ≠ 0 then Codec.optItem (Descriptor.Block.dec tb) d p else .ok (none, p))
       let (k, p) ← kindDec tb kind version datasize d p
       let ((cid, mt, ls), p) ← tailDec version d p
-      let (data, p) ← (if kind = GP.linkedExternal ∧ version = 2 then Codec.optItem (readUpTo datasize) d p else .ok (k.data, p))
+      let (data, p) ← (if kind = GP.linkedExternal ∧ version = 2 then Codec.optItem (readSized datasize) d p else .ok (k.data, p))
       .ok (⟨kind, version, uuid, filename, filetype, creator, k.filesize, openFile, k.linkedFile, k.timestamp, data, cid, mt, ls⟩, p)
     else .error .assertionError
   else .error .valueError
